@@ -18,4 +18,6 @@ class BuiltinNameSanitizer(NameSanitizer):
             return ""
 
         first_letter = name[0] if name[0] in string.ascii_letters else "_"
-        return first_letter + self._BAD_CHARS.sub("", name[1:].translate(self._TRANSLATE_MAP))
+        body = self._BAD_CHARS.sub("", name[1:].translate(self._TRANSLATE_MAP))
+        # \w also matches characters that can not be a part of an identifier (e.g. superscript digits)
+        return first_letter + "".join(char for char in body if ("_" + char).isidentifier())
